@@ -837,9 +837,9 @@ func checkQuotedForm(p *core.Prog, parts []ssa.Value, subjectOK func(ssa.Value) 
 }
 
 func runC16(p *core.Prog, r *core.Report) {
-	r.Rule("C16-R1", "ShellEscape returns, on every path, constant · replace-all(input, constants) · constant", 1)
+	r.Rule("C16-R1", "ShellEscape returns, on every path and in every case of a merged result, constant · replace-all(input, constants) · constant — as an expression (Replace n<0, ReplaceAll, Replacer, Join(Split)), through package helpers, or assembled in a strings.Builder by a split-at-delimiter or per-byte loop", 1)
 	r.Rule("C16-R2", "run through a POSIX sh lexer automaton: the opening constant enters single quotes with an empty word, every replacement returns to single quotes having contributed exactly the replaced byte, ' itself is replaced, the closing constant ends the word with nothing added", 1)
-	r.Rule("C16-R3", "ShellEscapeExceptTilde leaves exactly the tested constant prefix \"~/\" outside the quotes, escapes the remainder from the prefix length on with ShellEscape, and falls back to ShellEscape(input) otherwise", 2)
+	r.Rule("C16-R3", "ShellEscapeExceptTilde leaves exactly the prefix \"~/\" outside the quotes and only on paths where the input is known to start with it (HasPrefix, CutPrefix, or both byte tests), escapes exactly the remainder after it with ShellEscape (or ShellEscape's own verified form written out), and falls back to ShellEscape(input) otherwise", 2)
 	r.NotDecided = append(r.NotDecided, "agreement of real dash/bash with the POSIX lexer model (no shell is run)")
 	r.Trusted = append(r.Trusted, "POSIX XCU 2.2: inside single quotes every character except ' is literal", "strings.Replace(n<0)/ReplaceAll/Replacer replace every occurrence")
 
